@@ -1495,7 +1495,14 @@ class sptensor:
         """
         old = np.setdiff1d(np.arange(self.ndims), n).astype(int)
         # tnt calculation is a workaround for missing sptenmat
-        reshaped = self.copy().reshape((np.prod(np.array(self.shape)[old]), 1), old)
+        if old.size == 0:
+            # 1-way tensor: there is no other mode to fold; reshape(..., old) with
+            # an empty list of modes fails in np.concatenate
+            reshaped = self.copy().reshape((self.shape[n], 1, 1))
+        else:
+            reshaped = self.copy().reshape(
+                (np.prod(np.array(self.shape)[old]), 1), old
+            )
         if all(s == 1 for s in reshaped.shape):
             raise ValueError(
                 "Cannot call nvecs on sptensor with only singleton dimensions"
